@@ -168,6 +168,10 @@ pub fn run_corpus(ctx: &mut Ctx) {
         ctx.report.bump("corpus-case");
         let before = ctx.report.findings.len();
         judge_run_case(ctx, "corpus", cs, &c.case, &c.src, None);
+        if ctx.prop == "C15" {
+            let mut cr = crate::prng::Prng::new(cs);
+            crate::suites::judge_c15_case(ctx, "corpus", cs, &c.case, &c.src, &mut cr);
+        }
         let _ = before;
         // the expectations are part of the property's oracle
         let run = crate::imp::run_dynamic(&c.case, &c.src);
